@@ -50,3 +50,41 @@ impl<S> Write for TlsStream<S> {
 }
 
 impl<S> Duplex for TlsStream<S> {}
+
+// ---- native_tls::TlsConnector / TlsConnectorBuilder as far as Link::start_ssl uses them (TRUSTED: what the options mean is the crate's
+// documentation: `danger_accept_invalid_certs(true)` disables certificate validation; a handshake or validation failure is an Err)
+#[verifier::external_body]
+pub struct TlsConnectorBuilder { _p: () }
+#[verifier::external_body]
+pub struct TlsConnector { _p: () }
+impl TlsConnectorBuilder {
+    pub uninterp spec fn accept_invalid(&self) -> bool;
+    pub uninterp spec fn sni(&self) -> bool;
+    /// (the real method returns `&mut Self` for chaining; Link::start_ssl uses it as a statement)
+    #[verifier::external_body]
+    pub fn danger_accept_invalid_certs(&mut self, accept_invalid_certs: bool)
+        ensures final(self).accept_invalid() == accept_invalid_certs, final(self).sni() == old(self).sni()
+    { unimplemented!() }
+    #[verifier::external_body]
+    pub fn use_sni(&mut self, use_sni: bool)
+        ensures final(self).sni() == use_sni, final(self).accept_invalid() == old(self).accept_invalid()
+    { unimplemented!() }
+    #[verifier::external_body]
+    pub fn build(&self) -> (r: RdpResult<TlsConnector>)
+        ensures r is Ok ==> r->Ok_0.accept_invalid() == self.accept_invalid()
+    { unimplemented!() }
+}
+impl TlsConnector {
+    pub uninterp spec fn accept_invalid(&self) -> bool;
+    /// the default of native-tls: certificates ARE validated
+    #[verifier::external_body]
+    pub fn builder() -> (r: TlsConnectorBuilder)
+        ensures !r.accept_invalid()
+    { unimplemented!() }
+    /// handshake over `stream`: Ok only when the handshake (and, unless disabled, the certificate validation) succeeded.  Modelling
+    /// convention: the ghost traces of the raw stream carry over to the TLS stream (the link's trace is one sequence across the upgrade)
+    #[verifier::external_body]
+    pub fn connect<S: Read + Write>(&self, domain: &str, stream: S) -> (r: RdpResult<TlsStream<S>>)
+        ensures r is Ok ==> r->Ok_0.cert_checked() == !self.accept_invalid() && r->Ok_0.tls_written() == stream.written() && r->Ok_0.tls_rest() == stream.rest()
+    { unimplemented!() }
+}
